@@ -1,10 +1,10 @@
 SPECIFICATION Spec
 CONSTANTS
-  Addrs = {1, 2}
+  Addrs = {1}
   Threshold = 1
   MaxCount = 2
   MaxBSize = 100
-  MaxCache = 2
+  MaxCache = 1
   NW = 1
   Procs = {1, 2}
   Ops = {"put", "del", "get", "flush", "setmode", "reopen"}
